@@ -188,6 +188,15 @@ func (f *Frame) staticCall(bi *BInfo, fn *ssa.Function, cl *closureVal, args []T
 		}
 		return res
 	}
+	if f.top.fc != nil && fn.Blocks != nil {
+		for _, name := range f.top.fc.Inlines {
+			if matchesCallee(fn, name) && !f.inChain(fn) {
+				// executed inline at the request of the function under verification (its contract
+				// supplies the invariants of the callee's loops)
+				return f.inlineCall(bi, fn, cl, args, argVals)
+			}
+		}
+	}
 	key := contractKeyOf(fn)
 	fc := g.cs.Funcs[key]
 	if fc == nil && fn.Origin() != nil {
@@ -221,9 +230,13 @@ func (f *Frame) staticCall(bi *BInfo, fn *ssa.Function, cl *closureVal, args []T
 		return f.freshResults(sig)
 	}
 	// external function without contract: A-ext
-	g.assumeNote("A-ext: external functions without a trusted contract return unconstrained values and change the modelled heap only through pointers and slices passed to them directly")
-	f.havocArgs(bi, args, argVals)
-	f.havocClosureArgs(bi, argVals)
+	g.assumeNote("A-ext: external functions without a trusted contract return unconstrained values and change the modelled heap only through pointers and slices passed to them directly (also when wrapped in an interface value)")
+	if readOnlyExtern(fn) {
+		g.assumeNote("A-readonly: functions of fmt (except Scan*), log/slog, github.com/deckhouse/deckhouse/pkg/log, errors, strings and strconv do not modify memory reachable from their arguments")
+	} else {
+		f.havocArgs(bi, args, argVals)
+		f.havocClosureArgs(bi, argVals)
+	}
 	res := f.freshResults(sig)
 	f.externFacts(bi, fn, args, res)
 	return res
@@ -259,6 +272,16 @@ func (f *Frame) havocArgs(bi *BInfo, args []T, argVals []ssa.Value) {
 			}
 			continue
 		}
+		if mi, ok := av.(*ssa.MakeInterface); ok {
+			// a pointer or slice handed over as interface{} (json.Decode(&x), fmt.Sscan(&x), ...)
+			if _, isIface := mi.X.Type().Underlying().(*types.Interface); !isIface {
+				if l, ok := f.locs[mi.X]; ok {
+					g.store(st, l, g.freshConst("hv:ext", g.sortOf(l.T)))
+					continue
+				}
+				a = f.val(mi.X)
+			}
+		}
 		if a.GT == nil {
 			continue
 		}
@@ -271,9 +294,6 @@ func (f *Frame) havocArgs(bi *BInfo, args []T, argVals []ssa.Value) {
 			pt := u.Elem()
 			if isStruct(pt) {
 				su := pt.Underlying().(*types.Struct)
-				if n := namedOf(pt); n != nil && n.Obj().Pkg() != nil && !strings.HasPrefix(n.Obj().Pkg().Path(), strings.TrimSuffix(modulePath, "/")) {
-					continue // foreign object: we do not model its fields
-				}
 				for k := 0; k < su.NumFields(); k++ {
 					l := g.fieldLoc(a.S, pt, k)
 					g.store(st, l, g.freshConst("hv:ext", g.sortOf(l.T)))
@@ -284,6 +304,23 @@ func (f *Frame) havocArgs(bi *BInfo, args []T, argVals []ssa.Value) {
 			}
 		}
 	}
+}
+
+// readOnlyExtern: formatting and logging functions (assumption A-readonly).
+func readOnlyExtern(fn *ssa.Function) bool {
+	pkg := ""
+	if fn.Pkg != nil {
+		pkg = fn.Pkg.Pkg.Path()
+	} else if o := fn.Object(); o != nil && o.Pkg() != nil {
+		pkg = o.Pkg().Path()
+	}
+	switch pkg {
+	case "fmt":
+		return !strings.Contains(fn.Name(), "Scan")
+	case "log/slog", "github.com/deckhouse/deckhouse/pkg/log", "errors", "strings", "strconv":
+		return true
+	}
+	return false
 }
 
 // externFacts: a few hard-wired facts about standard-library functions (each is listed as an
